@@ -12,6 +12,7 @@ from .rewrites import FakeCircuit, FakeGate
 from .tables import Denotations, GateTypeVal, gate_overrides
 from . import semantics
 
+ARITH = 'cirbo.synthesis.generation.arithmetics'
 UTILS = 'cirbo.synthesis.generation.arithmetics._utils'
 GEN = 'cirbo.synthesis.generation.generation'
 GATE_MOD = 'cirbo.core.circuit.gate'
@@ -20,7 +21,7 @@ SUB = 'cirbo.synthesis.generation.arithmetics.subtraction'
 
 
 class GadgetBench:
-    def __init__(self, repo, den):
+    def __init__(self, repo, den, contracts=False):
         self.repo = repo
         ov = gate_overrides(den)
         ov[f'{GATE_MOD}.Gate'] = FakeGate
@@ -37,6 +38,15 @@ class GadgetBench:
         ov[f'{UTILS}.generate_random_label'] = fresh
         ov[f'{GEN}._get_new_label'] = fresh
         ov[f'{GEN}._get_new_labels'] = fresh_many
+        if contracts:
+            # assume/guarantee: the bit counters (while-loop algorithms, C07) are replaced by their contract
+            # sum(out_k * 2^k) = number of True operands, on the minimal number of result bits
+            def popcount(circuit, input_labels, **kw):
+                labels = list(input_labels)
+                width = max(1, len(labels).bit_length())
+                return [circuit.add_contract_gate(fresh(circuit), labels, (lambda vals, k=k: (sum(bool(v) for v in vals) >> k) & 1)) for k in range(width)]
+            ov[f'{ARITH}.summation._add_sum_n_bits'] = popcount
+            ov[f'{ARITH}.summation._add_sum_n_bits_aig'] = popcount
         self.interp = Interp(repo, overrides=ov)
 
     def host(self, n_inputs, extra=()):
